@@ -32,7 +32,7 @@ def stream(rng, d, n):
 
 
 def generate(rng, tier):
-    ndefs = 30 if tier == "quick" else 2000
+    ndefs = 60 if tier == "quick" else 2000
     for _ in range(ndefs):
         d = defgen.Defn(rng, apid_name=rng.choice(["PKT_APID", "APID"]), max_depth=rng.choice([1, 2, 3]), fanout=3)
         dsx = sx(d.sexpr())
